@@ -57,6 +57,8 @@ def termStr (tag : String) (parts : List RVal) : String :=
 structure PStore where
   blobs : List (Sg × RVal) := []
   paths : List (String × Sg) := []
+  /-- `NoOpStore`: never stores a blob or a path -/
+  noop : Bool := false
 
 def sgGet {α} (l : List (Sg × α)) (k : Sg) : Option α :=
   match l with
@@ -65,9 +67,9 @@ def sgGet {α} (l : List (Sg × α)) (k : Sg) : Option α :=
 
 def PStore.hasBlob (S : PStore) (k : Sg) : Bool := (sgGet S.blobs k).isSome
 def PStore.storeBlob (S : PStore) (k : Sg) (v : RVal) : PStore :=
-  { S with blobs := (k, v) :: S.blobs.filter (fun kv => kv.1 ≠ k) }
+  if S.noop then S else { S with blobs := (k, v) :: S.blobs.filter (fun kv => kv.1 ≠ k) }
 def PStore.sync (S : PStore) (ps : List (String × Sg)) : PStore :=
-  { S with paths := ps.foldl (fun acc pk => aset acc pk.1 pk.2) S.paths }
+  if S.noop then S else { S with paths := ps.foldl (fun acc pk => aset acc pk.1 pk.2) S.paths }
 
 inductive XErr where
   | exc (kind token : String)      -- a user exception: kind and the token it carries
